@@ -27,14 +27,14 @@ def summary(t):
 
 def run(ctx):
     thorough = ctx.tier == "thorough"
-    ncases = 60000 if thorough else 4000
+    ncases = 60000 if thorough else 3000
     maxmsgs = 5 if thorough else 3
     maxlen = 22 if thorough else 14
 
     ctx.mc("WrapMC", "WrapMC.cfg", consts={"MaxSteps": 8 if thorough else 6, "MaxMsgs": 2},
            workers=vf.NCPU, timeout=3000, deadlock=False)
 
-    gen = ctx.tlc("WrapGen", "WrapGen.cfg", consts={"NCases": ncases, "MaxMsgs": maxmsgs, "MaxLen": maxlen},
+    gen = ctx.tlc("WrapGen", "WrapGen.cfg", consts={"NCases": ncases, "MaxMsgs": maxmsgs, "MaxLen": maxlen, "CxPct": 7, "DlPct": 15},
                   workers=4, timeout=1800)
     cases = sorted(gen.cases(), key=lambda c: c["n"])
     calls = [c for c in cases if c["kind"] == "call"]
@@ -81,7 +81,7 @@ def run(ctx):
         for f in b["fails"]:
             clause, _, tag = f.partition(":")
             shape = o["shape"] if o["kind"] == "call" else "refused"
-            sig = "C13/wrap/%s/%s/%s" % (clause, tag, shape)
+            sig = "C13/wrap/%s/%s/%s" % (tag, clause, shape)     # <site>/<scenario of the script>/<clause>/<shape>
             by_sig.setdefault(sig, []).append((b, o, clause))
     if ref_bad:
         b, o = ref_bad[0]
